@@ -136,7 +136,9 @@ func openFile(file string) (*os.File, error) {
 
 // createFile creates file.
 func createFile(file string) (*os.File, error) {
-	outfile, err := os.Create(file)
+	// append mode, as for an existing file: a step's stdout: and stderr: (or
+	// two steps' files) may name the same file
+	outfile, err := os.OpenFile(file, os.O_RDWR|os.O_CREATE|os.O_APPEND, 0666)
 	if err != nil {
 		return nil, err
 	}
